@@ -33,6 +33,17 @@ CHECKS['C08'] = dict(
     note='Trusted: Lean kernel + 3 standard axioms; harness; Pool.starmap = ordered map; file reads and numpy sync-word search as '
          'modelled; P1 time/type of entries checked against the payload class\'s own unpack (not in the Lean model).')
 
+CHECKS['C09'] = dict(
+    text='Lean 4 theorems on the model of FileIndex.save/load: a saved index loads back identically against the unchanged data '
+         'file; with the complete index on disk any change of the data size is refused with the error that triggers re-indexing; '
+         'for EVERY truncation length of the index file (crash during save) and any later append/truncate of the data file, whatever '
+         'load accepts lists exactly the messages of a fresh sequential scan of the current data. Tied to file_index.py by '
+         'correspondence over every truncation length of real .p1i files; MixedLogReader compared with a fresh scan.',
+    ref='4 C09', technique='Lean 4 proof (codec round trip, prefix-decoding lemma, scan-of-truncated-file lemma) + correspondence',
+    note='Trusted: Lean kernel + 3 standard axioms; harness; file system modelled (np.fromfile = whole records, crash = any prefix of '
+         'the written bytes); data-file changes limited to append/truncate (the property\'s history alphabet); entries of type INVALID(0) '
+         'and P1 times >= 2^32-1 s excluded by hypothesis.')
+
 NOT_APPLICABLE = []
 
 
